@@ -31,6 +31,8 @@ def verify(seed):
         rc, out = sh(["/venv/bin/python", "demo_seed.py"], cwd=wt)
         res["clean_demo_rc"] = rc
         rc, out = sh(["git", "apply", os.path.join(seed, "patch.diff")], cwd=wt)
+        if rc != 0:
+            rc, out = sh(["git", "apply", "--3way", os.path.join(seed, "patch.diff")], cwd=wt)
         res["apply_rc"] = rc
         if rc != 0:
             res["apply_out"] = out[-500:]
@@ -68,7 +70,50 @@ def detect(seed, ids):
     return res
 
 
+def detectw(seed, ids, revert=None):
+    """like detect, but against a scratch worktree of /repo HEAD (put first on PYTHONPATH), so /repo itself stays untouched and other runs can go on.
+    With revert=<commit> the change tested is the reversal of that commit of /repo (is the repaired defect detected when it comes back?)."""
+    if revert:
+        seed = tempfile.mkdtemp(prefix="seedrv_")
+        rc, out = sh(["git", "-C", REPO, "show", "--format=", revert])
+        rc2, out2 = sh(["git", "-C", REPO, "show", "--format=", "-R", revert])
+        with open(os.path.join(seed, "patch.diff"), "w") as f:
+            f.write(out2)
+        json.dump({"property": ids[0]}, open(os.path.join(seed, "meta.json"), "w"))
+    meta = json.load(open(os.path.join(seed, "meta.json")))
+    ids = ids or [meta["property"]]
+    wt = tempfile.mkdtemp(prefix="seedwt_")
+    os.rmdir(wt)
+    scratch = tempfile.mkdtemp(prefix="seedev_")
+    rc, out = sh(["git", "-C", REPO, "worktree", "add", "--detach", wt, "HEAD"])
+    res = {}
+    try:
+        rc, out = sh(["git", "apply", os.path.abspath(os.path.join(seed, "patch.diff"))], cwd=wt)
+        if rc != 0:
+            rc, out = sh(["git", "apply", "--3way", os.path.abspath(os.path.join(seed, "patch.diff"))], cwd=wt)
+        if rc != 0:
+            return {"error": "patch does not apply: " + out[-300:]}
+        env = dict(os.environ, PYTHONPATH=wt, VERIF_EVIDENCE_DIR=os.path.join(scratch, "ev"), VERIF_REPLAYS_DIR=os.path.join(scratch, "rp"))
+        os.makedirs(env["VERIF_EVIDENCE_DIR"]); os.makedirs(env["VERIF_REPLAYS_DIR"])
+        p = subprocess.run(["/verif/.venv/bin/python", "-c", "import func_adl; print(func_adl.__file__)"], env=dict(env, PYTHONPATH="/verif:" + wt), capture_output=True, text=True)
+        if not p.stdout.strip().startswith(wt):
+            return {"error": "func_adl not imported from the scratch worktree: " + p.stdout + p.stderr[-200:]}
+        for pid in ids:
+            p = subprocess.run(["/verif/vf", "check", pid, "--tier", os.environ.get("SEED_TIER", "quick")], cwd="/verif", capture_output=True, text=True, timeout=7200, env=env)
+            rc, out = p.returncode, p.stdout + p.stderr
+            lines = [x for x in out.splitlines() if x.startswith("VIOLATION") or x.startswith("HARNESS-ERROR") or x.startswith(pid + " ")]
+            res[pid] = {"rc": rc, "violations": sum(1 for x in lines if x.startswith("VIOLATION")), "first": [x for x in out.splitlines() if x.startswith("  ")][:2],
+                        "summary": lines[-1][:300] if lines else out[-300:]}
+    finally:
+        sh(["git", "-C", REPO, "worktree", "remove", "--force", wt])
+        sh(["rm", "-rf", scratch])
+    return res
+
+
 if __name__ == "__main__":
     cmd, seed = sys.argv[1], sys.argv[2]
-    r = verify(seed) if cmd == "verify" else detect(seed, sys.argv[3:])
+    if cmd == "revert":   # python -m vlib.seedtest revert <commit> <ids...>
+        r = detectw(None, sys.argv[3:], revert=seed)
+    else:
+        r = verify(seed) if cmd == "verify" else (detectw if cmd == "detectw" else detect)(seed, sys.argv[3:])
     print(json.dumps(r, indent=1))
